@@ -450,9 +450,14 @@ func (db *DB) doProcessIterations(iterations []*iteration) {
 		return false
 	}
 
+	allHaveDeadlines := true
 	for _, it := range iterations {
 		includeMemStore = includeMemStore || it.includeMemStore
 		deadline, hasDeadline := it.ctx.Deadline()
+		if !hasDeadline {
+			// an iteration without deadline must not inherit one from the others
+			allHaveDeadlines = false
+		}
 		if hasDeadline && deadline.After(maxDeadline) {
 			maxDeadline = deadline
 		}
@@ -508,7 +513,7 @@ func (db *DB) doProcessIterations(iterations []*iteration) {
 	}
 
 	newCtx := context.Background()
-	if !maxDeadline.IsZero() {
+	if allHaveDeadlines && !maxDeadline.IsZero() {
 		var cancel context.CancelFunc
 		newCtx, cancel = context.WithDeadline(newCtx, maxDeadline)
 		defer cancel()
